@@ -1,5 +1,6 @@
 import Tulz.Model.ArrayStore
 import Tulz.Drv.Util
+import Tulz.Drv.IterDrv
 /- line protocol for the Array model:
      arr cfg <cls 0|1> <number of variable slots>      start a history (also `arr reset`)
      arr <op> <args…>  ->  `<result> | d:<net live-value change>`   or   `!<error>`
@@ -63,6 +64,14 @@ def step (s : State) (args : List String) : State × String :=
     match a.toNat? >>= s.st.vars.find, b.toNat? >>= s.st.vars.find with
     | some x, some y => (s, if x.blk.isSome && x.blk == y.blk then "b=1" else "b=0")
     | _, _ => (s, "!BAD_VAR")
+  | "it" :: id :: start :: c :: cmds =>     -- iterator script over variable `id` (RandomAccessIndexIterator model)
+    match id.toNat? >>= s.st.vars.find with
+    | some v =>
+      match IterDrv.run v.arr.get start (c :: cmds) with
+      | some (.ok o) => (s, o ++ " | d:")
+      | some (.error e) => (s, "!" ++ e.toString)
+      | none => (s, "bad-op")
+    | none => (s, "!BAD_VAR")
   | ["heap"] =>                          -- blocks currently allocated
     (s, s!"owned={s.st.heap.owned.length}")
   | _ =>
